@@ -381,6 +381,63 @@ func C09(r *eng.Run) {
 			}
 		}
 	})
+	// dense round trip: a fixed Weyl sequence of "generic" mantissas x every exponent (no oracle needed: the round trip itself is the property)
+	nm := 1 << 13
+	if r.Thorough() {
+		nm = 1 << 17
+	}
+	r.Bounds["weyl_mantissas_for_round_trip"] = nm
+	r.Par(2047, func(w *eng.W, e int) {
+		m := uint64(0)
+		var bad int
+		for i := 0; i < nm; i++ {
+			m += 0x9e3779b97f4a7c15
+			for s := uint64(0); s < 2; s++ {
+				f := math.Float64frombits(s<<63 | uint64(e)<<52 | m>>12)
+				if g := dec.FromFloat64(f).Float64(); math.Float64bits(g) != math.Float64bits(f) {
+					bad++
+					if bad <= 2 {
+						w.R.Fail(eng.Case{Op: "FromFloat64.Float64", Args: []string{fmt.Sprintf("%016x", math.Float64bits(f))}, Got: fmt.Sprintf("%016x", math.Float64bits(g)), Want: "round trip", Note: fmt.Sprint(f)})
+					}
+				}
+			}
+		}
+		w.EvalN(int64(2 * nm))
+		w.CellN("FromFloat64/round-trip-generic-mantissas", int64(2*nm), true)
+	})
+	// the same with many more mantissas at a few exponents of every conversion path (conditions on one 64-bit word of an
+	// intermediate product depend on the mantissa only)
+	nm2 := 1 << 20
+	if r.Thorough() {
+		nm2 = 1 << 24
+	}
+	r.Bounds["weyl_mantissas_dense"] = nm2
+	pathExps := []int{0, 1, 2, 700, 1000, 1022, 1023, 1024, 1050, 1074, 1075, 1076, 1100, 1215, 1216, 1300, 2000, 2046}
+	r.Par(len(pathExps)*16, func(w *eng.W, k int) {
+		e := pathExps[k/16]
+		m := uint64(k%16) * 0x9e3779b97f4a7c15 * uint64(nm2/16)
+		bad := 0
+		for i := 0; i < nm2/16; i++ {
+			m += 0x9e3779b97f4a7c15
+			f := math.Float64frombits(uint64(i&1)<<63 | uint64(e)<<52 | m>>12)
+			if g := dec.FromFloat64(f).Float64(); math.Float64bits(g) != math.Float64bits(f) {
+				bad++
+				if bad <= 2 {
+					w.R.Fail(eng.Case{Op: "FromFloat64.Float64", Args: []string{fmt.Sprintf("%016x", math.Float64bits(f))}, Got: fmt.Sprintf("%016x", math.Float64bits(g)), Want: "round trip", Note: fmt.Sprint(f)})
+				}
+			}
+		}
+		w.EvalN(int64(nm2 / 16))
+		w.CellN("FromFloat64/round-trip-dense-mantissas", int64(nm2/16), true)
+	})
+	// and the oracle on a thinner slice of the same sequence
+	r.Par(2047, func(w *eng.W, e int) {
+		m := uint64(0)
+		for i := 0; i < 24; i++ {
+			m += 0x9e3779b97f4a7c15
+			checkFromFloat64(w, math.Float64frombits(uint64(e)<<52|m>>12))
+		}
+	})
 	r.Phase("FromFloat64", t0, nil)
 
 	t0 = time.Now()
